@@ -46,7 +46,7 @@ theorem feed_print (c : LasContent) (l : LasLayout) (hwf : wfContent c = true) :
     simp only [curveNames_hdr, List.map_map]
     have h1 : ((fun (x : Value × Value) => x.1) ∘ fun (h : HLine) => ((.text h.mnem : Value), (.text h.unit : Value))) =
         Value.text ∘ (fun h => h.mnem) := by funext h; rfl
-    rw [h1, ← List.map_map, hasDupKey_text _ hmn, isDateTime_names _ hdt, hwrap]
+    rw [h1, ← List.map_map, hasDupKey_text _ hmn, isDateTime_names _ hdt, identClash_text, hwrap]
     simp
   rw [hopen]
   simp only [thenFeed]
